@@ -1,6 +1,7 @@
 import MimeModel.Model.Detect
 import MimeModel.Lemmas.DetectTie
 import MimeModel.Lemmas.JsonBackC
+import MimeModel.Lemmas.SpecComplete
 /-
   C09 — malformed JSON is not reported as JSON.
 
@@ -144,6 +145,16 @@ theorem sound_truncated (cap : Nat) (raw : Bytes) (lim : Nat) (qs : List Gen.Jso
     · rw [e2] at hv; cases hv
     · rw [e2] at hv; cases hv
 
+/-- **C09 (truncated, full strength)**: a positive verdict on a prefix implies that the examined
+    bytes can be continued to a well-formed document of the relaxed grammar: there is a suffix
+    `rest` such that `raw ++ rest` is one object or array with only white space around it.
+    (`Lemmas/SpecComplete.lean`: every viable prefix of the reference grammar has a completing
+    suffix: open strings, escapes, literals, numbers, arrays and objects are closed in turn.) -/
+theorem truncated_completable (cap : Nat) (raw : Bytes) (lim : Nat) (qs : List Gen.Json.Query) (w : Nat)
+    (h : jsonHelperCap cap raw lim qs w = true) (ht : lim ≠ 0) (hlen : lim ≤ raw.length) :
+    ∃ rest : Bytes, J.relaxedDoc (raw ++ rest) = true :=
+  Mime.SpecComplete.viable_completable raw (sound_truncated cap raw lim qs w h ht hlen)
+
 theorem jsonHelper_eq (raw : Bytes) (lim : Nat) (qs : List Gen.Json.Query) (w : Nat) :
     jsonHelper raw lim qs w = jsonHelperCap Gen.Json.maxRecursion raw lim qs w := rfl
 
@@ -151,9 +162,14 @@ theorem jsonHelper_eq (raw : Bytes) (lim : Nat) (qs : List Gen.Json.Query) (w : 
 theorem family_sound (raw : Bytes) (lim : Nat) (qs : List Gen.Json.Query) (w : Nat)
     (h : jsonHelper raw lim qs w = true) :
     (lim = 0 ∨ raw.length < lim → J.relaxedDoc raw = true) ∧
-    (lim ≠ 0 → lim ≤ raw.length → J.viable raw = true) := by
+    (lim ≠ 0 → lim ≤ raw.length → J.viable raw = true ∧ ∃ rest : Bytes, J.relaxedDoc (raw ++ rest) = true) := by
   rw [jsonHelper_eq] at h
-  exact ⟨sound_whole _ raw lim qs w h, sound_truncated _ raw lim qs w h⟩
+  exact ⟨sound_whole _ raw lim qs w h,
+    fun ht hlen => ⟨sound_truncated _ raw lim qs w h ht hlen, truncated_completable _ raw lim qs w h ht hlen⟩⟩
+
+/- non-vacuity: an accepted truncated header and one of its completions -/
+example : jsonHelper [0x5B, 0x7B, 0x22, 0x61] 4 Gen.Json.q_json (tokObject ||| tokArray) = true := by decide
+example : J.relaxedDoc ([0x5B, 0x7B, 0x22, 0x61] ++ [0x22, 0x3A, 0x30, 0x7D, 0x5D]) = true := by decide
 
 /- non-vacuity: an accepted relaxed document that is not RFC 8259 (trailing comma, liberal number) -/
 example : jsonHelper [0x5B, 0x31, 0x2E, 0x2C, 0x5D] 0 Gen.Json.q_json (tokObject ||| tokArray) = true := by decide
